@@ -92,9 +92,9 @@ fn step(i: &mut Inst, n: usize) {
             format!("{:?} {:?}", i.app.block_info().height, i.app.wrap().query_wasm_code_info(9).map(|c| c.checksum).map_err(|e| e.to_string()))
         }
     };
-    // ... and everything the contracts were shown while it ran (sender, funds, block, the whole Reply
-    // including gas_used: nothing a contract can observe may differ between instances; seed C19c)
-    let seen: Vec<String> = sc::trace_take().iter().map(|e| format!("{}:{:?}:{:?}:{:?}:{:?}", e.entry, e.sender, e.funds, e.block, e.reply)).collect();
+    // ... and everything the contracts were shown while it ran (sender, funds, block, env.transaction, env.contract, the whole
+    // Reply including gas_used: nothing a contract can observe may differ between instances; seed C19c)
+    let seen: Vec<String> = sc::trace_take().iter().map(|e| format!("{}:{:?}:{:?}:{:?}:{}:{:?}", e.entry, e.sender, e.funds, e.block, e.env_rest, e.reply)).collect();
     i.log.push(format!("{} || contracts saw {:?}", out, seen));
 }
 
